@@ -301,6 +301,27 @@ def case_image(img, pristine, wd, label):
             out.append(("x-exits-0-wrong-content", f"{label}: 'x' exits 0 but the extracted files differ from the original members"))
     elif ex_ok and got == sorted(pristine):
         out.append(("x-fails-on-good", f"{label}: 'x' exits {st_x} although library extraction succeeds with the original bytes"))
+    # 'a' on the same image: status 0 only if the earlier members are still listed afterwards (an archive whose header
+    # cannot be read has nothing to append to)
+    import py7zr
+
+    def names_of(path):
+        try:
+            with py7zr.SevenZipFile(path) as z:
+                return z.getnames()
+        except Exception:
+            return None
+
+    before = names_of(ap)
+    with open(os.path.join(base, "extra.txt"), "wb") as f:
+        f.write(b"appended by the command line\n")
+    st_a, so, se = cli(["a", "d.7z", "extra.txt"], cwd=base)
+    if st_a == 0:
+        after = names_of(ap)
+        if before is None:
+            out.append(("a-exits-0-on-unreadable", f"{label}: 'a' exits 0 on an archive the library cannot open; afterwards it lists {after}"))
+        elif after is None or after[:len(before)] != before:
+            out.append(("a-exits-0-members-lost", f"{label}: 'a' exits 0 but the earlier members {before} became {after}"))
     shutil.rmtree(base, ignore_errors=True)
     return out
 
@@ -332,7 +353,7 @@ def shard(task):
         for label, img in list(damage_images(base["blob"], base["packed"], ("flip", "trunc")))[lo:hi]:
             r = case_image(img, base["pristine"], wd, f"{base['name']} {label}")
             sh.case(digest(img), nontrivial=label[1] >= 6)
-            sh.count("cli_invocations", 2)
+            sh.count("cli_invocations", 3)
             for sym, msg in r:
                 sh.violation({"symptom": sym, "base": base["name"]}, msg, {"kind": "image", "base": bidx, "tier": tier, "label": list(label)})
     elif kind == "special":
@@ -464,8 +485,8 @@ def main(tier="quick", seed=0, only=None):
             f"{len(shapes)} source trees: c (with and without .7z in the name) -> l (every library-listed name shown) -> x (plain, --verbose, without "
             "output directory) -> a extra file -> x (earlier members undisturbed) -> t, plus the error statuses of c on an existing archive and a on "
             f"a missing one, and c / a with the source spelled './src', 'src/', 'nest/deeper/src', as an absolute path and as an enclosing directory (member names must equal those the library's writeall stores for the same argument); -v SIZE for every SIZE in {SIZES} x every unit in {UNITS} (volumes sized as requested, concatenation extracts to the tree); "
-            f"t and x on EVERY single-bit flip and EVERY truncation of {len(pick)} base archives (every password-free base of the tier: one per decoder family, raw and packed headers, several folders, reference layouts), judged against the library's own verdict on the "
-            "same bytes (exit 0 <=> the library succeeds; exit 0 on x => the extracted files are the original members); encrypted / unsupported-"
+            f"t, x and a on EVERY single-bit flip and EVERY truncation of {len(pick)} base archives (every password-free base of the tier: one per decoder family, raw and packed headers, several folders, reference layouts), judged against the library's own verdict on the "
+            "same bytes (exit 0 <=> the library succeeds; exit 0 on x => the extracted files are the original members; exit 0 on a => the library could open the image before and still lists its members first afterwards); encrypted / unsupported-"
             "method / damaged fixtures and non-archives. Statuses are taken in-process (return value / SystemExit / uncaught exception = 1); the "
             "mapping is compared with real `python -m py7zr` subprocesses on 10 invocations every run."
         ),
